@@ -51,9 +51,9 @@ let rec p_expr (t : string list) : xexpr * string list =
           let (a, r) = p_expr r in let (l, r) = args (n - 1) r in (a :: l, r) in
       let (l, r) = args (int_of_string k) r in (ECall (bytes_of_hex h, l), r)
   | _ -> failwith "bad expr encoding"
-let p_top (t : string list) : xetop =
+let p_top_r (t : string list) : xetop * string list =
   match t with
-  | "E" :: r -> let (e, _) = p_expr r in ETop e
+  | "E" :: r -> let (e, r) = p_expr r in (ETop e, r)
   | "K" :: r ->
       let (v, r) = (match r with
         | "v0" :: r -> (None, r)
@@ -63,12 +63,13 @@ let p_top (t : string list) : xetop =
       let rec ws n r = if n = 0 then ([], r) else
           let (c, r) = p_expr r in let (x, r) = p_expr r in let (l, r) = ws (n - 1) r in ((c, x) :: l, r) in
       let (l, r) = ws n r in
-      let els = (match r with
-        | "e0" :: _ -> None
-        | "e1" :: r -> let (e, _) = p_expr r in Some e
+      let (els, r) = (match r with
+        | "e0" :: r -> (None, r)
+        | "e1" :: r -> let (e, r) = p_expr r in (Some e, r)
         | _ -> failwith "case e") in
-      ECase (v, l, els)
+      (ECase (v, l, els), r)
   | _ -> failwith "bad top encoding"
+let p_top (t : string list) : xetop = fst (p_top_r t)
 
 let show_tok = function
   | TNum q -> "n" ^ show_q q | TStr s -> "s" ^ hex_of_bytes s | TId s -> "i" ^ hex_of_bytes s
@@ -131,6 +132,96 @@ let assoc_obs (toks : string list) : (string * string) list =
     | None -> (t, "")) toks
 
 type cmpres = Same | Differ of string | Unmodelled
+
+
+(* ---- classification of a disagreement with the reference semantics (keys of known findings) ---- *)
+let rec subexprs (e : xexpr) : xexpr list =
+  e :: (match e with
+    | ENeg x | EParen x -> subexprs x
+    | EBin (_, l, r) | ECmp (_, l, r) | EAnd (l, r) | EOr (l, r) -> subexprs l @ subexprs r
+    | ECall (_, a) -> List.concat_map subexprs a
+    | _ -> [])
+let top_exprs (t : xetop) : xexpr list =
+  match t with
+  | ETop e -> subexprs e
+  | ECase (v, ws, els) ->
+      (match v with Some x -> subexprs x | None -> [])
+      @ List.concat_map (fun (c, x) -> subexprs c @ subexprs x) ws
+      @ (match els with Some x -> subexprs x | None -> [])
+let is_null_val row e = (match sem row e with Some VNull -> true | _ -> false)
+let classify (row : xrow) (t : xetop) : string =
+  let es = top_exprs t in
+  let has f = List.exists f es in
+  let rec strip = function EParen x -> strip x | x -> x in
+  let missing_col e = (match strip e with ECol c -> xlookup row c = None | _ -> false) in
+  String.concat "," (List.filter (fun x -> x <> "") [
+    (if has (function ECmp (_, l, r) -> missing_col l || missing_col r | _ -> false) then "cmp_missing_column" else "");
+    (if has (function ECmp ((CNe | CNe2), l, r) -> is_null_val row l || is_null_val row r | _ -> false) then "ne_null" else "");
+    (if has (function ECmp ((CEq | CEq2), l, r) -> is_null_val row l && is_null_val row r | _ -> false) then "eq_both_null" else "");
+    (if (match t with ECase _ -> List.mem TLP (xprint t) | _ -> false) then "case_with_parens" else "");
+    (if has (function ECall (_, a) -> List.exists missing_col a | _ -> false) then "call_missing_column" else "");
+    (if has (function EBin (_, l, r) -> is_null_val row l || is_null_val row r | ENeg x -> is_null_val row x | _ -> false) then "null_arith_error" else "");
+    (if has (function ECmp ((CLt | CLe | CGt | CGe), l, r) -> is_null_val row l || is_null_val row r | _ -> false) then "null_order_error" else "");
+    (if (match t with ETop e -> List.mem TLP (xprint t) && not (bridge_parses e) | _ -> false) then "paren_item_sql_operator" else "");
+    (if (match t with ETop (ENum q) -> not (Z.ltb q.qnum Z0) | _ -> false) then "numeric_literal_item" else "") ])
+  |> (fun s -> if s = "" then "unclassified" else s)
+
+let more_handle (toks : string list) : string =
+  match toks with
+  | "B" :: _ :: rest ->
+      (match Win.split_hash rest with
+       | [ _; enc; rowt; [ obs ] ] ->
+           let et = p_top enc in let row = parse_row rowt in
+           (match et with
+            | ETop e ->
+                (match bridge_eval row e with
+                 | OUnm -> "ok"
+                 | OErr -> if obs = "e" then "ok" else "diff bridge impl=" ^ obs ^ " model=e"
+                 | OVal v -> if val_matches obs v then "ok nt" else "diff bridge impl=" ^ obs ^ " model=" ^ show_val v)
+            | _ -> "ok")
+       | _ -> "bad line")
+  | "H" :: _ :: rest ->
+      (match Win.split_hash rest with
+       | [ _; enc; rowt; [ obs ] ] ->
+           let et = p_top enc in let row = parse_row rowt in
+           (match et with
+            | ETop e ->
+                (match where_true row e with
+                 | None -> "ok"
+                 | Some b when b01 b <> obs -> "diff where impl=" ^ obs ^ " model=" ^ b01 b
+                 | Some _ ->
+                     (* the statement: WHERE passes iff the condition is true in the reference semantics *)
+                     (match sem row e with
+                      | Some v -> (match as_bool v with
+                          | Some t when b01 t <> obs ->
+                              "chk where_vs_sem " ^ classify row et ^ " impl=" ^ obs ^ " spec=" ^ b01 t
+                          | _ -> "ok nt")
+                      | None -> "ok"))
+            | _ -> "ok")
+       | _ -> "bad line")
+  | "S" :: _ :: rest ->
+      (match Win.split_hash rest with
+       | [ _; enc; rowt; [ obs ] ] ->
+           let et = p_top enc in let row = parse_row rowt in
+           (match (match et with ETop (ENum q) when not (Z.ltb q.qnum Z0) -> Some VNull (* rsql: a bare number is a column name *)
+                          | _ -> expr_item_value row et) with
+            | None -> "ok"
+            | Some v when not (val_matches obs v) -> "diff select impl=" ^ obs ^ " model=" ^ show_val v
+            | Some _ ->
+                (match sem_top row et with
+                 | Some v when not (val_matches obs v) ->
+                     "chk select_vs_sem " ^ classify row et ^ " impl=" ^ obs ^ " spec=" ^ show_val v
+                 | Some _ -> "ok nt"
+                 | None -> "ok"))
+       | _ -> "bad line")
+  | "D" :: _ :: rest ->
+      (match Win.split_hash rest with
+       | [ _; _; verdict :: _ ] ->
+           if verdict = "same" then "ok" else "chk function_" ^ verdict ^ "_dependent"
+       | _ -> "bad line")
+  | "M" :: _ :: verdict :: sqlv :: _ ->
+      if verdict = "ok" && sqlv <> "PANIC" then "ok" else "chk malformed_" ^ verdict
+  | _ -> "bad line"
 
 let handle (toks : string list) : string =
   match toks with
@@ -197,6 +288,6 @@ let handle (toks : string list) : string =
                  | Differ s :: _ -> "diff " ^ s
                  | _ -> if !nontriv && not !unm then "ok nt" else "ok"))
        | _ -> "bad line")
-  | _ -> "bad line"
+  | _ -> more_handle toks
 
 let () = Registry.register "C06" handle
